@@ -99,6 +99,7 @@ func runC03(c *Ctx) {
 	c03TermBM25F(c, sx, F)
 	c03Build(c, sx, F)
 	c03Scoring(c, sx)
+	c03WhoWrites(c)
 	c03Rebuild(c)
 	c03TermCap(c, sx)
 }
@@ -694,6 +695,55 @@ func c03Build(c *Ctx, sx *symx.Ctx, F []string) {
 	r.Check(postOK, "O-3", fk+"#posting-docID", c.P.Pos(fn.Pos()), "postings[term] = append(postings[term], posting{docID: index of the per-document table, tf: that document's counts})", "postings are not built as posting{docID: i, tf: perDoc[i][term]} appended under the same term")
 }
 
+// c03WhoWrites: the index tables are written only by the builder, so that
+// postings, document frequencies, lengths, N and the averages always describe
+// the same command list.
+func c03WhoWrites(c *Ctx) {
+	r := c.R
+	build := c.P.Func("internal/database", "Database", "BuildUniversalIndex")
+	uix := dbPkg + ".universalIndex"
+	inside, n := 0, 0
+	for _, fn := range shippedFuncs(c) {
+		root := fn
+		for root.Parent() != nil {
+			root = root.Parent()
+		}
+		ssau.ForEachInstr(fn, false, func(in ssa.Instruction) {
+			what := ""
+			switch x := in.(type) {
+			case *ssa.Store:
+				if fa, ok := x.Addr.(*ssa.FieldAddr); ok && ssau.NamedOf(fa.X.Type()) == uix {
+					what = "idx." + ssau.FieldName(fa)
+				}
+				if ia, ok := x.Addr.(*ssa.IndexAddr); ok {
+					if _, ok := ssau.IsFieldLoad(ia.X, uix, "docLens"); ok {
+						what = "idx.docLens[i]"
+					}
+				}
+			case *ssa.MapUpdate:
+				for _, f := range []string{"postings", "df"} {
+					if _, ok := ssau.IsFieldLoad(x.Map, uix, f); ok {
+						what = "idx." + f + "[term]"
+					}
+				}
+			}
+			if what == "" {
+				return
+			}
+			if root == build {
+				inside++
+				return
+			}
+			n++
+			r.Bad("O-2", fmt.Sprintf("%s#writes-index-table-%d", load.FuncKey(fn), n), c.P.Pos(in.Pos()), what+" is written outside BuildUniversalIndex: postings, document frequencies, lengths, N and the length averages can no longer be assumed to describe the same command list (an incremental update must recompute all of them)")
+		})
+	}
+	r.Floor("O-2", "index-table writes inside the builder", inside, 8)
+	if n == 0 {
+		r.OK("O-2", "database.universalIndex#written-only-by-the-builder", "", fmt.Sprintf("%d writes, all inside BuildUniversalIndex", inside))
+	}
+}
+
 func c03Scoring(c *Ctx, sx *symx.Ctx) {
 	r := c.R
 	fn := c.P.Func("internal/database", "Database", "processPostingsForTerm")
@@ -836,7 +886,7 @@ func c03Rebuild(c *Ctx) {
 			r.Check(ok, "O-5", key, c.P.Pos(call.Pos()), "followed on all paths by buildTFIDFSearcher (or only skipped when the database has no re-ranker)", "the inverted index is rebuilt but the TF-IDF re-ranker and the command-pointer index are not: NLP re-ranking and the semantic stage keep using tables built for the old command list")
 		}
 	}
-	r.Floor("O-5", "index build call sites", n, 4)
+	r.Floor("O-5", "index build call sites", n, 2)
 	// stores to Commands of an existing database
 	m := 0
 	for _, fn := range shippedFuncs(c) {
